@@ -4,8 +4,8 @@ from ..fdai import EnumV, AggV, K, SymV, RefV, Cell, Loc, TOP, load, snapshot
 from . import contrib as CB, dispatch as D
 
 LEVEL = "other"
-TECHNIQUE = "FDAI/dataflow tables of ScpiDevice::push_error and scpi_opc (ESR |= class bit, one queue append with the same error), of the SYSTem:ERRor handlers and *ESR?, who-may-call census for queue/ESR writers, documented wiring (example device), plus the hook table of Node::run (C05) and the queue op tables (C12)"
-LEVEL_TEXT = "The chain run -> handle_error -> push_error -> queue/ESR -> SYST:ERR / *ESR? is decided link by link on all paths of each function: the error returned by run is handed to the hook once; push_error ORs exactly that error's class bit into ESR and appends exactly that error once; only push_error/scpi_opc append, only the NEXT/ALL handlers remove, only four functions write ESR; NEXT pops once and answers NoError on an empty queue, COUNt reports the length, ALL pops until empty in pop order; *ESR? reads before it clears."
+TECHNIQUE = 'abstract device model (sa/rules/devmodel.py): ScpiDevice::push_error / scpi_opc, the SYSTem:ERRor handlers and *ESR? are interpreted by the FDAI engine on an abstract device (8-bit registers, queue of distinct entries, two event register sets) with the trait methods they call interpreted on that state; the final state and the response data are compared with SCPI-99 21.8 / IEEE 488.2 11.5 for every standard error class, custom codes on class boundaries, several prior ESR values and queue lengths 0..4; who-may-call census for queue/ESR writers; documented wiring (example device); the hook table of Node::run (C05) and the queue state tables (C12)'
+LEVEL_TEXT = 'The chain run -> handle_error -> push_error -> queue/ESR -> SYST:ERR / *ESR? is decided link by link: the error returned by run is handed to the hook once (path table of Node::run); for each error class push_error leaves ESR = old | class bit and the queue = old + [that error] with nothing else changed; *OPC accumulates bit 0 and queues -800; only push_error/scpi_opc append, only the NEXT/ALL handlers remove, only four functions write ESR (census); NEXT? answers and removes the oldest entry or answers 0,"No error", COUNt? answers the length, ALL? answers all entries oldest first and empties the queue, *ESR? answers the bits and clears them - each computed as final state + response from the handler\'s MIR.'
 LEVEL_NOTE = "Not decided: devices wired differently from the documented example; ordering over histories (container contracts, C12). Trusted: rustc MIR, FDAI models."
 
 SD = "scpi_contrib::scpi1999::ScpiDevice::"
